@@ -85,7 +85,10 @@ fn big_polyline(rng: &mut Rng) -> Vec<Point2> {
 
 fn curves2(rng: &mut Rng) {
     let pts = big_polyline(rng);
-    let Ok(c) = Curve2::from_points(&pts, 1e-9, false) else { return };
+    // the curve's own tolerance (vertex merging, length comparisons) is not a distance floor: queries
+    // nearer to the curve than it still get their true distance
+    let ctol = *rng.pick(&[1e-9, 1e-9, 1e-6, 1e-4, 1e-3, 1e-2]);
+    let Ok(c) = Curve2::from_points(&pts, ctol, false) else { return };
     let v_ = c.points().to_vec();
     let n = v_.len();
     let scale = 1.0 + v_.iter().map(|p| p.coords.norm()).fold(0.0, f64::max);
@@ -95,7 +98,15 @@ fn curves2(rng: &mut Rng) {
     let mut v = Verdict::new();
     for _ in 0..nq {
         let base = v_[rng.below(n)];
-        let q = match rng.below(6) {
+        let q = match rng.below(7) {
+            6 if n >= 2 => {
+                // beside the curve, nearer than the curve tolerance
+                let k = rng.below(n - 1);
+                let e = v_[k + 1] - v_[k];
+                let nrm = engeom::Vector2::new(-e.y, e.x) / e.norm().max(1e-300);
+                let h = ctol * rng.range(0.1, 0.95) * if rng.chance(0.5) { 1.0 } else { -1.0 };
+                v_[k] + e * rng.range(0.05, 0.95) + nrm * h
+            }
             0 => base,                                                             // on a vertex
             1 => { let k = rng.below(n - 1); v_[k] + (v_[k + 1] - v_[k]) * rng.unit() } // on the curve
             2 => Point2::new(base.x.round() + 0.5, base.y.round() + 0.5),          // equidistant on grids
@@ -138,7 +149,14 @@ fn curves3(rng: &mut Rng) {
     let mut v = Verdict::new();
     for _ in 0..10 {
         let base = v_[rng.below(n)];
-        let q = if rng.chance(0.3) { base } else { base + Vector3::new(rng.gauss(), rng.gauss(), rng.gauss()) * rng.range(0.0, 2.0) };
+        let q = if rng.chance(0.2) && n >= 2 {
+            // beside the curve, nearer than the curve's own tolerance
+            let k = rng.below(n - 1);
+            let e = v_[k + 1] - v_[k];
+            let side = e.cross(&Vector3::new(rng.gauss(), rng.gauss(), rng.gauss()));
+            let side = if side.norm() > 1e-12 { side.normalize() } else { Vector3::zeros() };
+            v_[k] + e * rng.range(0.05, 0.95) + side * (c.tol() * rng.range(0.1, 0.95))
+        } else if rng.chance(0.3) { base } else { base + Vector3::new(rng.gauss(), rng.gauss(), rng.gauss()) * rng.range(0.0, 2.0) };
         let st = c.at_closest_to_point(&q);
         let d = c.dist_to_point(&q);
         let brute = v_.windows(2).map(|w| seg3(&q, &w[0], &w[1])).fold(f64::INFINITY, f64::min);
